@@ -152,10 +152,12 @@ Proof.
   rewrite <- Iso. reflexivity.
 Qed.
 
-(* the two together: the residual of the model of _make_equations at node r *)
+(* the two together: the residual of the model of _make_equations at node r.
+   Voltage sources never enter a KCL sum (a node that touches one gets the
+   constraint instead), so no branch relation is required of them. *)
 Theorem nodal_sat (k : lkind) (s : K) (N : list pelt) (v v0 ib : Z -> K) (r : Z) (pick : nat) :
   0 <= r -> phys (map to_phys N) v ib -> branch_distinct N ->
-  (forall e, In e N -> pe_ok e /\ leaf_sound_at k s v v0 ib r e) ->
+  (forall e, In e N -> pe_ok e /\ (is_V (pe_l e) = false -> leaf_sound_at k s v v0 ib r e)) ->
   (forall e, In e N -> pe_cl e = cV -> 0 <= bown (pe_c e) /\ veq_V k (le_par (pe_l e)) s f0 f0 = par (pe_c e) pVoc) ->
   (forall e, In e N -> is_V (pe_l e) = true -> pe_cl e = cV) ->
   pick_ok (map pe_l N) r pick = true ->
@@ -172,7 +174,17 @@ Proof.
     + intros x Hx. apply (HN x Hx).
     + apply HVc; assumption.
     + unfold is_V in HisV. destruct (le_cls (pe_l e)); try discriminate. reflexivity.
-  - apply nodal_kcl_sat with (ib := ib); assumption.
+  - apply nodal_kcl_sat with (ib := ib); try assumption.
+    intros e He. destruct (HN e He) as [Ok Snd]. split; [exact Ok|].
+    destruct (is_V (pe_l e)) eqn:EV; [|apply Snd; reflexivity].
+    (* a voltage source: it does not touch r, so nothing is asked *)
+    assert (NT : touches r (pe_l e) = false).
+    { destruct (touches r (pe_l e)) eqn:ET; [|reflexivity]. exfalso.
+      assert (X : existsb is_V (filter (touches r) (map pe_l N)) = true).
+      { apply existsb_exists. exists (pe_l e). split; [|exact EV]. apply filter_In. split; [apply in_map; exact He | exact ET]. }
+      congruence. }
+    unfold touches in NT. apply orb_false_elim in NT. destruct NT as [A B].
+    apply Z.eqb_neq in A. apply Z.eqb_neq in B. split; intros; contradiction.
 Qed.
 End C15nodal.
 Arguments i_of {K}. Arguments leaf_sound {K}. Arguments leaf_sound_at {K}. Arguments pe_ok {K}. Arguments PE {K}.
